@@ -426,6 +426,11 @@ async fn on_connected(
         tokio::select! {
             Some(mux_task_joinset_result) = mux_task_joinset.join_next() => {
                 mux_task_joinset_result.expect("Task panicked (this is a bug)")?;
+                // The multiplexor task only finishes without an error when the server closed
+                // the connection in an orderly way. We still hold the `Multiplexor`, so this
+                // was not our doing: leave so that the caller reconnects, instead of idling
+                // on a dead connection until the next stream request happens to fail.
+                return Err(Error::ServerDisconnected);
             }
             Some(sender) = stream_command_rx.recv() => {
                 if let Err(e) = get_send_stream_chan(&mux, sender, failed_stream_request, args.channel_timeout).await {
